@@ -546,6 +546,7 @@ def run(ck):
     ok, info = ck.lean_obligations("DS.Props.C15")
     # the cell-scaling theorems speak about the Lattice model (setLatPar on the copied lattice): tie it to lattice.py
     tie_ok, tie_info = ck.source_tie("DS.Props.SrcLattice")
+    tie2_ok, tie2_info = ck.source_tie("DS.Props.SrcExpand")   # supercell: index list, image coordinates, new cell, guards
     try:
         import diffpy.structure.expansion  # noqa: F401
         from diffpy.structure import PDFFitStructure  # noqa: F401
@@ -719,6 +720,7 @@ def run(ck):
     ]
     ck.coverage["trusted_base"] += ["harness/c15.py oracle (plain numpy geometry, textbook triclinic base)", "compiled Lean model driver (DS.Expand.expandHandle)"]
     ck.tie_verdict(tie_ok, tie_info, "lattice.py")
+    ck.tie_verdict(tie2_ok, tie2_info, "supercell_mod.py")
     if not ok and not ck.violations:
         ck.fail("lean-build", "Lean obligations of C15 no longer check: %r" % (info["failed_modules"],),
                 {"kind": "proof-obligation", "theorem": info["failed_modules"], "errors": info["errors"]}, no_failing_input=True)
